@@ -123,6 +123,17 @@ def r14_1(ctx):
                 if up[0] == 'mem':
                     up = shared.resolve_mem(can, up)
                 px.append((sts[0][0], up, (bi0, len(c.blocks[bi0]['st']))))
+    # ... or as the slice primitive: self.buf.as_mut().fill(color) stores color into every element
+    if not px:
+        for bi0, d0, ct0 in calls_in(ctx, c):
+            if d0 and d0.endswith('slice::<impl [T]>::fill') and len(ct0[2]) == 2:
+                D = Deps(can)
+                D.closure(ct0[2][0])
+                if any(is_call(x, 'AsMut::as_mut') and is_self_field(strip_all(x[2][0]), 'buf') for x in D.visited) or is_call(strip_all(ct0[2][0]), 'AsMut::as_mut'):
+                    v = strip_all(ct0[2][1])
+                    if v[0] == 'mem':
+                        v = shared.resolve_mem(can, v)
+                    px.append((ct0[2][0], v, (bi0, len(c.blocks[bi0]['st']))))
     if ctx.check(len(px) >= 1, R, ckey + '|direct fill', c.loc(), 'direct fill store found', 'no direct pixel store found in clear (fail closed)'):
         for a, v, pt in px:
             ok = is_call(strip_all(v), 'SolidSource::to_u32') and strip_all(strip_all(v)[2][0]) == ('param', 2)
